@@ -13,12 +13,9 @@ Arguments digits_val : simpl never.
 Arguments exp_val : simpl never.
 Arguments nmem : simpl never.
 
-Definition is_bool_lit (l : lit) : bool := match l with LBool _ => true | _ => false end.
-
 (* outside the defect classes of the flags that are on *)
 Definition py_site_plain (q : mquirks) (s : site) : bool :=
-  (negb (q_py_bool_is_number q) || negb (existsb is_bool_lit (s_lits s)))
-  && (negb (q_py_upper_neg_flagged q) || negb (match s_ctx s with CUpperNeg => true | _ => false end))
+  (negb (q_py_upper_neg_flagged q) || negb (match s_ctx s with CUpperNeg => true | _ => false end))
   && (negb (q_py_upper_ann_flagged q) || negb (match s_ctx s with CUpperAnn => true | _ => false end))
   && (negb (q_py_upper_tuple_flagged q) || negb (match s_ctx s with CUpperTuple => true | _ => false end)).
 
@@ -43,13 +40,13 @@ Section Lit.
 
   Definition py_exempt (s : pysite) : bool :=
     py_is_const_def q (p_anc s)
-    || py_small_in (q_py_bool_is_number q) py_range_value_types py_range_lo py_range_lo_cmp py_range_hi_cmp py_range_name cfg s
-    || py_small_in (q_py_bool_is_number q) py_enumerate_value_types py_enumerate_lo py_enumerate_lo_cmp py_enumerate_hi_cmp py_enumerate_name cfg s
-    || py_string_repetition (q_py_bool_is_number q) s.
+    || py_small_in py_range_value_types py_range_lo py_range_lo_cmp py_range_hi_cmp py_range_name cfg s
+    || py_small_in py_enumerate_value_types py_enumerate_lo py_enumerate_lo_cmp py_enumerate_hi_cmp py_enumerate_name cfg s
+    || py_string_repetition s.
 
   Lemma py_site_report_eq t s :
     py_site_report q cfg t s =
-    if negb (val_isinstance (q_py_bool_is_number q) (p_val s) py_numeric_types) then []
+    if negb (val_is (p_val s) py_numeric_types (excl (q_py_bool_is_number q) py_numeric_excluded)) then []
     else if nmem (val_num (p_val s)) (allowed cfg) then []
     else if t || py_exempt s then [] else [(p_line s, rval_of (p_val s))].
   Proof. unfold py_site_report, py_exempt. rewrite !orb_assoc. reflexivity. Qed.
@@ -111,21 +108,12 @@ Qed.
 
 Lemma py_site_plain_parts q s :
   py_site_plain q s = true ->
-  (negb (q_py_bool_is_number q) || negb (existsb is_bool_lit (s_lits s))) = true
-  /\ (negb (q_py_upper_neg_flagged q) || negb (match s_ctx s with CUpperNeg => true | _ => false end)) = true
+  (negb (q_py_upper_neg_flagged q) || negb (match s_ctx s with CUpperNeg => true | _ => false end)) = true
   /\ (negb (q_py_upper_ann_flagged q) || negb (match s_ctx s with CUpperAnn => true | _ => false end)) = true
   /\ (negb (q_py_upper_tuple_flagged q) || negb (match s_ctx s with CUpperTuple => true | _ => false end)) = true.
 Proof.
-  unfold py_site_plain. intros H. apply andb_prop in H. destruct H as [H H4]. apply andb_prop in H. destruct H as [H H3].
+  unfold py_site_plain. intros H. apply andb_prop in H. destruct H as [H H3].
   apply andb_prop in H. destruct H as [H1 H2]. repeat split; assumption.
-Qed.
-
-Lemma plain_bool q s b : py_site_plain q s = true -> In (LBool b) (s_lits s) -> q_py_bool_is_number q = false.
-Proof.
-  intros Hp Hin. destruct (py_site_plain_parts q s Hp) as [H _].
-  destruct (q_py_bool_is_number q); [|reflexivity]. cbn [negb orb] in H. apply negb_true_iff in H.
-  assert (E : existsb is_bool_lit (s_lits s) = true) by (apply existsb_exists; exists (LBool b); split; [exact Hin | reflexivity]).
-  congruence.
 Qed.
 
 Lemma py_lit_exact q cfg sc s l (t : bool) :
@@ -133,19 +121,20 @@ Lemma py_lit_exact q cfg sc s l (t : bool) :
   flat_map (py_site_report q cfg t) (to_py_lit (sc_kind sc) s l) = spec_lit MPy cfg t sc s l.
 Proof.
   intros Hg Hp Hin. destruct (site_good_parts _ _ _ Hg) as [Hctx [Hnm [_ _]]].
-  destruct (py_site_plain_parts q s Hp) as [_ [G1 [G2 G3]]].
+  destruct (py_site_plain_parts q s Hp) as [G1 [G2 G3]].
+  destruct (excl_fact (q_py_bool_is_number q)) as [EX _].
   unfold to_py_lit, spec_lit.
   destruct (lit_is_numeric l) eqn:Hnum.
-  - assert (Hv : exists v, py_const l = Some v /\ val_isinstance (q_py_bool_is_number q) v py_numeric_types = true
+  - assert (Hv : exists v, py_const l = Some v /\ val_is v py_numeric_types ["bool"] = true
                            /\ lit_value l = Some (val_num v) /\ rval_of v = RNum (val_num v)).
     { destruct l; try discriminate; cbn [py_const lit_value lit_raw option_map]; eexists; (split; [reflexivity|]); (split; [reflexivity|]); split; reflexivity. }
     destruct Hv as [v [Ev [Hi [Hval Hrv]]]]. rewrite Ev. cbn [flat_map]. rewrite app_nil_r.
-    rewrite py_site_report_eq. cbn [p_val p_line]. rewrite Hi. cbn [negb]. rewrite Hval, Hrv, allowed_spec.
+    rewrite py_site_report_eq. cbn [p_val p_line]. rewrite EX, Hi. cbn [negb]. rewrite Hval, Hrv, allowed_spec.
     rewrite (py_ctx_exempt q cfg _ _ _ _ _ _ Hctx Hnm Hnum Ev G1 G2 G3).
     unfold spec_site_exempt. cbn [orb]. reflexivity.
   - rewrite (lit_value_numeric l Hnum).
-    destruct l as [ | | b | st | st]; try discriminate; cbn [py_const flat_map]; try reflexivity.
-    rewrite app_nil_r, py_site_report_eq. cbn [p_val]. rewrite (plain_bool q s b Hp Hin). reflexivity.
+    destruct l as [ | | b | st | st]; try discriminate; cbn [py_const flat_map]; try reflexivity;
+      rewrite app_nil_r, py_site_report_eq; cbn [p_val]; rewrite EX; reflexivity.
 Qed.
 
 (* ------------------------------------------------------------------ the definition-file detector *)
@@ -183,10 +172,11 @@ Lemma sum_zero {A} (g : A -> nat) l : (forall x, In x l -> g x = 0) -> sum_nat (
 Proof. induction l as [|x xs IH]; intros H; [reflexivity|]. cbn [map sum_nat fold_right]. rewrite (H x (or_introl eq_refl)). apply IH. intros y Hy. apply H. right. exact Hy. Qed.
 
 Lemma count_site q k s :
-  site_good MPy k s = true -> py_site_plain q s = true ->
+  site_good MPy k s = true ->
   sum_nat (map (def_upper_count_site (q_py_bool_is_number q)) (to_py_site k s)) = spec_upper_site k s.
 Proof.
-  intros Hg Hp. destruct (site_good_parts _ _ _ Hg) as [Hctx [Hnm [Hlen _]]].
+  intros Hg. destruct (site_good_parts _ _ _ Hg) as [Hctx [Hnm [Hlen _]]].
+  destruct (excl_fact (q_py_bool_is_number q)) as [_ [EX _]].
   destruct s as [c name lits line]. cbn [s_ctx s_name s_lits s_line] in *.
   assert (OTHER : match k, c with STop, (CAssign | CUpper) => False | _, _ => True end ->
                   sum_nat (map (def_upper_count_site (q_py_bool_is_number q)) (to_py_site k (mk_site c name lits line))) = 0).
@@ -201,34 +191,31 @@ Proof.
     apply andb_prop in Hnm. destruct Hnm as [Hnm _]. apply andb_prop in Hnm. destruct Hnm as [Hnm _].
     unfold to_py_site. cbn [s_lits s_ctx s_name s_line flat_map]. rewrite app_nil_r.
     destruct (py_const l) as [v|]; [|reflexivity]. cbn [map sum_nat fold_right py_ctx_chain py_scope_chain app def_upper_count_site p_anc p_val].
-    destruct (val_isinstance (q_py_bool_is_number q) v def_numeric_types); [|reflexivity].
+    destruct (val_is v def_numeric_types (excl (q_py_bool_is_number q) def_numeric_excluded)); [|reflexivity].
     cbn [filter]. rewrite (lower_def_const name Hnm). reflexivity.
   - (* CUpper at module level *)
     destruct lits as [|l [|l2 r]]; try discriminate. unfold name_ok in Hnm. cbn [ctx_is_const_def] in Hnm.
     unfold to_py_site. cbn [s_lits s_ctx s_name s_line flat_map]. rewrite app_nil_r.
     destruct l as [r gs up sfx | ip fp ex sfx | b | st | st]; cbn [py_const lit_is_numeric b2n map sum_nat fold_right]; try reflexivity.
-    + cbn [py_ctx_chain py_scope_chain app def_upper_count_site p_anc p_val]. replace def_numeric_types with ["int"; "float"] by reflexivity.
+    + cbn [py_ctx_chain py_scope_chain app def_upper_count_site p_anc p_val]. rewrite EX. replace def_numeric_types with ["int"; "float"] by reflexivity.
       cbn. rewrite (upper_def_const name Hnm). reflexivity.
-    + cbn [py_ctx_chain py_scope_chain app def_upper_count_site p_anc p_val]. replace def_numeric_types with ["int"; "float"] by reflexivity.
+    + cbn [py_ctx_chain py_scope_chain app def_upper_count_site p_anc p_val]. rewrite EX. replace def_numeric_types with ["int"; "float"] by reflexivity.
       cbn. rewrite (upper_def_const name Hnm). reflexivity.
-    + cbn [py_ctx_chain py_scope_chain app def_upper_count_site p_anc p_val].
-      rewrite (plain_bool q _ b Hp (or_introl eq_refl)). reflexivity.
+    + cbn [py_ctx_chain py_scope_chain app def_upper_count_site p_anc p_val]. rewrite EX. reflexivity.
 Qed.
 
 Definition spec_dict_site (s : site) : bool :=
   match s_ctx s with CDictKeys => 5 <=? List.length (filter lit_is_int (s_lits s)) | _ => false end.
 
 Lemma int_keys_dict q k s0 all :
-  s_ctx s0 = CDictKeys -> (q_py_bool_is_number q = false \/ existsb is_bool_lit all = false) ->
+  s_ctx s0 = CDictKeys ->
   def_int_keys (q_py_bool_is_number q) (flat_map (to_py_lit k s0) all) = List.length (filter lit_is_int all).
 Proof.
-  intros Ec. induction all as [|l r IH]; intros Hb; [reflexivity|].
-  assert (Hb' : q_py_bool_is_number q = false \/ existsb is_bool_lit r = false).
-  { destruct Hb as [Hb|Hb]; [left; exact Hb | right]. cbn [existsb] in Hb. apply orb_false_iff in Hb. tauto. }
-  cbn [flat_map]. unfold def_int_keys in *. rewrite filter_app, app_length, (IH Hb'). cbn [filter].
-  unfold to_py_lit. rewrite Ec. replace def_int_key_types with ["int"] by reflexivity.
-  destruct l as [r0 gs up sfx | ip fp ex sfx | b | st | st]; cbn [py_const lit_is_int]; try reflexivity.
-  destruct Hb as [Hb|Hb]; [rewrite Hb; reflexivity | cbn [existsb is_bool_lit orb] in Hb; discriminate].
+  intros Ec. destruct (excl_fact (q_py_bool_is_number q)) as [_ [_ EX]].
+  induction all as [|l r IH]; [reflexivity|].
+  cbn [flat_map]. unfold def_int_keys in *. rewrite filter_app, app_length, IH. cbn [filter].
+  unfold to_py_lit. rewrite Ec, EX. replace def_int_key_types with ["int"] by reflexivity.
+  destruct l as [r0 gs up sfx | ip fp ex sfx | b | st | st]; cbn [py_const lit_is_int]; reflexivity.
 Qed.
 
 Lemma int_keys_other q k s0 all :
@@ -242,46 +229,40 @@ Proof.
 Qed.
 
 Lemma dict_site q k s :
-  py_site_plain q s = true ->
   cmp_nat def_min_dict_cmp (def_int_keys (q_py_bool_is_number q) (to_py_site k s)) def_min_dict = spec_dict_site s.
 Proof.
-  intros Hp. destruct (py_site_plain_parts q s Hp) as [Hb _].
   replace def_min_dict_cmp with CGe by reflexivity. replace def_min_dict with 5 by reflexivity. cbn [cmp_nat].
   rewrite to_py_site_eq. unfold spec_dict_site. destruct (s_ctx s) eqn:Ec;
     try (rewrite int_keys_other by (rewrite Ec; exact I); reflexivity).
-  rewrite int_keys_dict; [reflexivity | exact Ec|].
-  destruct (q_py_bool_is_number q); [right | left; reflexivity]. cbn [negb orb] in Hb. apply negb_true_iff in Hb. exact Hb.
+  rewrite int_keys_dict; [reflexivity | exact Ec].
 Qed.
 
 Lemma py_definition_file q f :
-  file_good MPy f = true -> py_file_plain q f = true ->
-  py_is_definition_file q (f_name f) (to_py f) = spec_is_definition_file f.
+  file_good MPy f = true -> py_is_definition_file q (f_name f) (to_py f) = spec_is_definition_file f.
 Proof.
-  intros Hg Hp. unfold file_good in Hg. apply andb_prop in Hg. destruct Hg as [_ Hscopes].
-  unfold py_file_plain in Hp. rewrite forallb_forall in Hscopes, Hp.
+  intros Hg. unfold file_good in Hg. apply andb_prop in Hg. destruct Hg as [_ Hscopes].
+  rewrite forallb_forall in Hscopes.
   unfold py_is_definition_file, spec_is_definition_file. rewrite def_name_spec.
   replace def_min_upper_cmp with CGe by reflexivity. replace def_min_upper with 10 by reflexivity. cbn [cmp_nat].
   f_equal; [f_equal; f_equal|].
-  - (* the count of module-level UPPER_CASE = number assignments *)
-    unfold to_py, spec_upper_defs. rewrite map_flat_map, sum_nat_flat_map. f_equal. apply map_ext_in. intros sc Hsc.
-    specialize (Hscopes sc Hsc). specialize (Hp sc Hsc). unfold scope_good in Hscopes. apply andb_prop in Hscopes. destruct Hscopes as [Hsites _].
-    rewrite forallb_forall in Hsites, Hp. rewrite map_map.
+  - unfold to_py, spec_upper_defs. rewrite map_flat_map, sum_nat_flat_map. f_equal. apply map_ext_in. intros sc Hsc.
+    specialize (Hscopes sc Hsc). unfold scope_good in Hscopes. apply andb_prop in Hscopes. destruct Hscopes as [Hsites _].
+    rewrite forallb_forall in Hsites. rewrite map_map.
     assert (E : map (fun s => sum_nat (map (def_upper_count_site (q_py_bool_is_number q)) (to_py_site (sc_kind sc) s))) (sc_sites sc)
                 = map (spec_upper_site (sc_kind sc)) (sc_sites sc)).
-    { apply map_ext_in. intros s Hs. apply count_site; [apply Hsites | apply Hp]; exact Hs. }
+    { apply map_ext_in. intros s Hs. apply count_site. apply Hsites. exact Hs. }
     rewrite E. clear. unfold spec_upper_site. destruct (sc_kind sc); try (apply sum_zero; reflexivity).
     induction (sc_sites sc) as [|s r IH]; [reflexivity|]. cbn [map filter]. unfold sum_nat in *. cbn [fold_right]. rewrite IH.
     destruct (s_ctx s); try reflexivity. destruct (s_lits s) as [|l [|l2 r2]]; try reflexivity. destruct (lit_is_numeric l); reflexivity.
-  - (* a dict display with enough integer keys *)
-    unfold to_py, spec_has_int_dict. rewrite existsb_flat_map. apply existsb_ext_in. intros sc Hsc. specialize (Hp sc Hsc).
-    rewrite forallb_forall in Hp. rewrite existsb_map. apply existsb_ext_in. intros s Hs. apply dict_site. apply Hp. exact Hs.
+  - unfold to_py, spec_has_int_dict. rewrite existsb_flat_map. apply existsb_ext_in. intros sc Hsc.
+    rewrite existsb_map. apply existsb_ext_in. intros s Hs. apply dict_site.
 Qed.
 
 (* ------------------------------------------------------------------ main theorem (Python) *)
 Theorem py_report_guarded q cfg f :
   file_good MPy f = true -> py_file_plain q f = true -> py_report q cfg f = spec_report MPy cfg f.
 Proof.
-  intros Hg Hp. unfold py_report. rewrite (py_definition_file q f Hg Hp).
+  intros Hg Hp. unfold py_report. rewrite (py_definition_file q f Hg).
   assert (Hname : smem (f_name f) (name_pool MPy) = true) by (unfold file_good in Hg; apply andb_prop in Hg; tauto).
   assert (Hscopes : forallb (scope_good MPy) (f_scopes f) = true) by (unfold file_good in Hg; apply andb_prop in Hg; tauto).
   unfold spec_report, spec_file_exempt. rewrite (py_test_name _ Hname).
@@ -298,14 +279,15 @@ Proof.
 Qed.
 
 Lemma py_plain_ideal q f :
-  q_py_bool_is_number q = false -> q_py_upper_neg_flagged q = false -> q_py_upper_ann_flagged q = false ->
+  q_py_upper_neg_flagged q = false -> q_py_upper_ann_flagged q = false ->
   q_py_upper_tuple_flagged q = false -> py_file_plain q f = true.
 Proof.
-  intros H1 H2 H3 H4. unfold py_file_plain. rewrite forallb_forall. intros sc _. rewrite forallb_forall. intros s _.
-  unfold py_site_plain. rewrite H1, H2, H3, H4. reflexivity.
+  intros H2 H3 H4. unfold py_file_plain. rewrite forallb_forall. intros sc _. rewrite forallb_forall. intros s _.
+  unfold py_site_plain. rewrite H2, H3, H4. reflexivity.
 Qed.
 
+(* whether bool is excluded because the source says so (flag on) or because the property says so (flag off) *)
 Theorem py_report_exact q cfg f :
-  q_py_bool_is_number q = false -> q_py_upper_neg_flagged q = false -> q_py_upper_ann_flagged q = false ->
+  q_py_upper_neg_flagged q = false -> q_py_upper_ann_flagged q = false ->
   q_py_upper_tuple_flagged q = false -> file_good MPy f = true -> py_report q cfg f = spec_report MPy cfg f.
-Proof. intros H1 H2 H3 H4 Hg. apply py_report_guarded; [exact Hg | apply py_plain_ideal; assumption]. Qed.
+Proof. intros H2 H3 H4 Hg. apply py_report_guarded; [exact Hg | apply py_plain_ideal; assumption]. Qed.
